@@ -59,6 +59,10 @@ def check(ctx: Ctx) -> None:
     r11(ctx)
     r12(ctx)
     r13(ctx)
+    # "metadata files are the truth": nobody but the sanctioned owners deletes one
+    from .c09 import r3 as c09_r3
+    ctx.shared(c09_r3, "C09.R3", "C10.R14", "a sweep deleting metadata files removes what hint-less recovery resolves to")
+    pointer_publishes_fresh_version(ctx)
 
 
 def _fold_digits(ctx: Ctx, f: FunctionInfo, e: ast.AST, at: int, depth: int = 0) -> Optional[str]:
@@ -436,6 +440,40 @@ def r12(ctx: Ctx, rid: str = "C10.R12") -> None:
                        "over / reported missing")
     ctx.ob(rid, mm.methods["refresh"], "truthiness tests in the manager examined", None, n_fn > 0, f"{n_fn} functions with truthiness branches",
            nontrivial=False)
+
+
+def pointer_publishes_fresh_version(ctx: Ctx, rid: str = "C10.R15") -> None:
+    ctx.rule(rid, "the pointer only ever moves to the version just written: the name every pointer write publishes comes from "
+             "_new_metadata_filename(...) in the same function (or from the caller, who is checked the same way) - never from "
+             "the metadata log, a listing or an older version (hint-less recovery picks the HIGHEST version on disk: after a "
+             "re-published old version the table's state depends on the pointer alone)", 3)
+    from .common import hint_write_nodes, hint_writers
+    writers = hint_writers(ctx)
+    wq = {w.qname for w in writers}
+
+    def judge(f: FunctionInfo, n: Node, value: Optional[ast.AST], what: str) -> None:
+        org = ctx.slicer(f).origins(value, n.id) if value is not None else {"calls": set(), "params": set()}
+        fresh = any(isinstance(c, ast.Call) and (dotted(c.func) or "").split(".")[-1] == "_new_metadata_filename" for c in org["calls"])
+        via_param = bool(org["params"] - {"self"}) and f.qname in wq and bool(ctx.eff.call_sites.get(f.qname))
+        ctx.ob(rid, f, what, n, fresh or via_param,
+               "publishes the file this function just named with _new_metadata_filename" if fresh else
+               ("publishes the name its caller passes (callers are checked)" if via_param else
+                "the published name is not a freshly allocated version: the pointer can move to an OLD version while newer ones stay "
+                "on disk - losing the pointer then resurrects them"))
+
+    for w in writers:
+        for n in hint_write_nodes(ctx, w):
+            val = n.ast.args[1] if isinstance(n.ast, ast.Call) and len(n.ast.args) > 1 else kwarg(n.ast, "content") or kwarg(n.ast, "data")
+            judge(w, n, val, "pointer content")
+        for caller, n in ctx.eff.call_sites.get(w.qname, []):
+            if caller.qname in wq or not isinstance(n.ast, ast.Call):
+                continue
+            tg = ctx.eff.callees(caller, n)
+            pn = next((p.name for p in w.params if p.name != "self"), None)
+            if w.name == "initialize_table" or pn is None:
+                continue  # takes no file name: allocates its own
+            arg = ctx.eff.bind_arg(n.ast, w, pn, True)
+            judge(caller, n, arg, f"name handed to {w.name}")
 
 
 def r13(ctx: Ctx, rid: str = "C10.R13") -> None:
